@@ -494,6 +494,25 @@ def check_add(S, r, depth, n_perturb):
             S.viol(f"d1 + d2 verdict {got}; separately declared merged dict {want}; key-by-key rule {by_hand}",
                    dict(rp, value=gen.vsrc(v), observed=got, expected=want))
 
+    # associativity (theorem add_assoc): (d1 + d2) + d3 and d1 + (d2 + d3) are the same schema - entries,
+    # optional flags and key order (the printed form shows the order)
+    if r.random() < 0.6:
+        d3s = gen_doperand(r, depth)
+        d3 = d3s.declare()
+        S.oracle_cases += 1
+        S.dist["add:assoc"] += 1
+        ex3 = f"(({d1s.src} + {d2s.src}) + {d3s.src}, {d1s.src} + ({d2s.src} + {d3s.src}))"   # a pair: both groupings
+        try:
+            left, right = (d1 + d2) + d3, d1 + (d2 + d3)
+            same = (left == right) and (repr(left) == repr(right)) and \
+                ([repr(k) for k in left] == [repr(k) for k in right])
+            if not same:
+                S.viol("+ is not associative", {"kind": "input", "op": "add", "expr": ex3,
+                                                "observed": common.srepr(left)[:400], "expected": common.srepr(right)[:400]})
+        except Exception as e:  # noqa
+            S.viol(f"chained + raises {type(e).__name__}", {"kind": "input", "op": "add", "expr": ex3,
+                                                            "observed": common.srepr(e)})
+
     def member_of(k):
         e = d2s.find(k) or d1s.find(k)
         return e.mobj if (e is not None and e.key is not ...) else None
